@@ -15,9 +15,50 @@ from . import realcanon
 _SCRATCH_BASE = "/dev/shm" if os.path.isdir("/dev/shm") and os.access("/dev/shm", os.W_OK) else "/tmp"
 _counter = [0]
 _HOME = os.getcwd()
+_run = {"key": None, "dir": None}
+
+
+def begin_run(key: str) -> None:
+    """Scratch directories are a pure function of (PYTHONHASHSEED, scenario digest, world counter): absolute paths are
+    hashed by the code under test (sets of Path), so exact replay needs identical paths. If another live process is using
+    the same directory (same scenario, same hash seed, same moment) a pid-suffixed directory is used instead."""
+    hs = os.environ.get("PYTHONHASHSEED", "x")
+    base = os.path.join(_SCRATCH_BASE, "dsim", "h" + hs, key)
+    lock = base + ".lock"
+    os.makedirs(os.path.dirname(base), exist_ok=True)
+    owner = None
+    try:
+        with open(lock) as f:
+            owner = int(f.read().strip() or 0)
+    except (OSError, ValueError):
+        owner = None
+    if owner and owner != os.getpid() and os.path.exists("/proc/%d" % owner):
+        base = base + "-alt%d" % os.getpid()
+        lock = base + ".lock"
+    shutil.rmtree(base, ignore_errors=True)
+    with open(lock, "w") as f:
+        f.write(str(os.getpid()))
+    _run["key"], _run["dir"], _run["lock"] = key, base, lock
+    _counter[0] = 0
+
+
+def end_run() -> None:
+    if _run.get("dir"):
+        try:
+            os.chdir(_HOME)
+        except OSError:
+            pass
+        shutil.rmtree(_run["dir"], ignore_errors=True)
+        try:
+            os.remove(_run["lock"])
+        except OSError:
+            pass
+    _run["key"] = _run["dir"] = None
 
 
 def scratch_root() -> str:
+    if _run.get("dir"):
+        return _run["dir"]
     return os.path.join(_SCRATCH_BASE, "dsim-%d" % os.getpid())
 
 
@@ -25,7 +66,7 @@ class World:
     def __init__(self, scn: dict):
         self.scn = scn
         _counter[0] += 1
-        self.scratch = os.path.join(scratch_root(), "r%d" % _counter[0])
+        self.scratch = os.path.join(scratch_root(), "w%d" % _counter[0])
         if os.path.exists(self.scratch):
             shutil.rmtree(self.scratch)
         os.makedirs(self.scratch)
